@@ -32,6 +32,13 @@ def cls_of(values):
     """read_cells values -> classes: own pattern 'D', zero 'Z', foreign 'X<k>'"""
     return ["D" if v == i else ("Z" if v == 0 else "X%d" % v) for i, v in enumerate(values, 1)]
 
+def prior_bytes(sc, total, cell):
+    if sc["prior"] == sc["len"] and sc["len"] >= 2:
+        return total                       # exactly the source's length
+    if sc["prior"] < max(sc["len"], 2):
+        return max(1, total // 2)
+    return total + cell + 5
+
 def layout_cells(sc):
     sset = set(sc["salloc"])
     return [1 if (i + 1) in sset else 0 for i in range(sc["len"])]
@@ -52,8 +59,8 @@ def run_one(binary, sc, run_id, cell=None, tail=0, workers=None, plan=None, no_p
     fsmat.write_cells(src, layout_cells(sc), cell, tail=tail, fid=1)
     total = sc["len"] * cell + tail
     if sc["prior"] > 0:
-        # shorter: about half of the source (at least 1 byte); longer: beyond the source's end; content: 0xAA
-        n = max(1, total // 2) if sc["prior"] == 1 else total + cell + 5
+        # same length, shorter (about half, at least 1 byte) or longer (beyond the source's end); content: 0xAA
+        n = prior_bytes(sc, total, cell)
         with open(dstp, "wb") as f:
             f.write(b"\xaa" * n)
             f.flush(); os.fsync(f.fileno())
@@ -116,7 +123,7 @@ def run_one(binary, sc, run_id, cell=None, tail=0, workers=None, plan=None, no_p
         if evs is not None and obs["dlen"] >= 0 and obs["dlen"] % cell == 0:
             prior_cells = 0
             if sc["prior"] > 0:
-                nb = max(1, total // 2) if sc["prior"] == 1 else total + cell + 5
+                nb = prior_bytes(sc, total, cell)
                 prior_cells = (nb + cell - 1) // cell
             obs["_life"] = evs
             obs["_lifesc"] = {"len": sc["len"], "salloc": sc["salloc"], "driver": sc["driver"], "bs": mbs, "reflink": sc["reflink"], "kcopy": sc["kcopy"],
